@@ -9,8 +9,12 @@
         <event>  ::= <fn>(<val>,<val>…)
         <val>    ::= <int> | true | false | u | s<hex> | none | some:<int> | [<int>;…]
                    | acc:<int> | rej:<int> | rec[..] | enm<k>[..]
-    c08 lower <hex sexp> <fuel> <a>,<b>,<c> …   →  same answers, computed by running the
-        structured lowering model (`RotoV.LowerS`) — see Model/LowerS.lean
+    c08 mir <hex sexp>   →  ok <tmp_idx> | <block 0> | <block 1> …   or   outside
+        the structured lowering model (`RotoV.LowerS.lowerBlock` of main's body, then `return`)
+        laid out as a CFG: instructions `a <var> = <value>`, `r <var>`, `j <block>`,
+        `s <var> <k> <block> <default block>` separated by `;`. `outside`: main uses a
+        construct the model does not cover. The harness canonicalises this and the real
+        compiler's MIR dump (hook verif_hooks::c08) the same way and compares them.
 
   Program s-expressions (printed by harness/src/c08/ast.rs):
     prog ::= (prog fn…)                 the last function is main
@@ -27,6 +31,7 @@
 -/
 import Driver.Util
 import RotoV.Model.TraceSpec
+import RotoV.Model.LowerS
 
 namespace Driver.C08
 open RotoV RotoV.TraceSpec
@@ -230,6 +235,97 @@ def parseProg (hexs : String) : Option (List FnDef) := do
   let (sx, _) ← parseSexp (tokens text)
   toProg sx
 
+/-! ### `c08 mir`: the structured lowering model as a CFG (raw blocks; the harness
+    canonicalises this and the real compiler's MIR dump the same way) -/
+
+open RotoV.LowerS in
+def showVar : Var → String
+  | .x n => s!"x{n}"
+  | .t n => s!"t{n}"
+
+def opName : BinOp → String
+  | .add => "Add" | .sub => "Sub" | .mul => "Mul" | .eq => "Eq" | .ne => "Ne"
+  | .lt => "Lt" | .le => "Le" | .gt => "Gt" | .ge => "Ge"
+
+def hostName (f : Nat) : String :=
+  (["emit", "emit_b", "emit_u", "emit_s", "emit_o", "mix", "emit3", "emit_l"][f]?).getD s!"host{f}"
+
+def showLit : Val → String
+  | .int v => s!"int:{v}"
+  | .bool b => s!"bool:{b}"
+  | .unit => "unit"
+  | v => "lit:" ++ showVal v
+
+open RotoV.LowerS in
+def showValue : Value → String
+  | .const v => "const " ++ showLit v
+  | .clone x => "clone " ++ showVar x
+  | .move x => "move " ++ showVar x
+  | .binop l op r => s!"binop {showVar l} {opName op} {showVar r}"
+  | .not x => "not " ++ showVar x
+  | .neg x => "neg " ++ showVar x
+  | .callRt f args => s!"callrt {hostName f} " ++ " ".intercalate (args.map showVar)
+
+/-- CFG under construction: finished/open blocks (instructions reversed) and the current block. -/
+structure Cfg where
+  blocks : Array (List String) := #[[]]
+  cur : Nat := 0
+
+namespace Cfg
+def push (g : Cfg) (i : String) : Cfg := { g with blocks := g.blocks.modify g.cur (i :: ·) }
+def newBlock (g : Cfg) : Cfg × Nat := ({ g with blocks := g.blocks.push [] }, g.blocks.size)
+def goto (g : Cfg) (l : Nat) : Cfg := { g with cur := l }
+end Cfg
+
+open RotoV.LowerS in
+mutual
+partial def emitStm (g : Cfg) : Stm → Cfg
+  | .assign x v => g.push s!"a {showVar x} = {showValue v}"
+  | .ret x => g.push s!"r {showVar x}"
+  | .ite x k thn els =>
+    let kn := if k then 1 else 0
+    let (g, lthen) := g.newBlock
+    if els.isEmpty then
+      -- `switch x [k => then] else cont`
+      let (g, lcont) := g.newBlock
+      let g := g.push s!"s {showVar x} {kn} {lthen} {lcont}"
+      let g := emitCode (g.goto lthen) thn
+      let g := g.push s!"j {lcont}"
+      g.goto lcont
+    else
+      let (g, lelse) := g.newBlock
+      let (g, lcont) := g.newBlock
+      let g := g.push s!"s {showVar x} {kn} {lthen} {lelse}"
+      let g := emitCode (g.goto lthen) thn
+      let g := g.push s!"j {lcont}"
+      let g := emitCode (g.goto lelse) els
+      let g := g.push s!"j {lcont}"
+      g.goto lcont
+  | .whl cond ex body =>
+    let (g, lcond) := g.newBlock
+    let (g, lbody) := g.newBlock
+    let (g, lcont) := g.newBlock
+    let g := g.push s!"j {lcond}"
+    let g := emitCode (g.goto lcond) cond
+    let g := g.push s!"s {showVar ex} 1 {lbody} {lcont}"
+    let g := emitCode (g.goto lbody) body
+    let g := g.push s!"j {lcond}"
+    g.goto lcont
+partial def emitCode (g : Cfg) : List Stm → Cfg
+  | [] => g
+  | s :: rest => emitCode (emitStm g s) rest
+end
+
+open RotoV.LowerS in
+/-- `ok <tmp_idx> | <block 0> | <block 1> …`, instructions separated by `;` — or `outside` when
+    the function is not in the modelled fragment. -/
+def showMir (fd : FnDef) : String :=
+  match lowerBlock fd.body 0 with
+  | none => "outside"
+  | some (cb, xb, c) =>
+    let g := emitCode {} (cb ++ [.ret xb])
+    s!"ok {c} | " ++ " | ".intercalate (g.blocks.toList.map (fun b => ";".intercalate b.reverse))
+
 def handle (args : List String) : String :=
   match args with
   | "run" :: hexs :: fuel :: ts =>
@@ -238,6 +334,13 @@ def handle (args : List String) : String :=
       " | ".intercalate (ts.map (fun t => showRun (run fns fuel t)))
     | none, _, _ => "bad-program"
     | _, _, _ => "bad-op"
+  | ["mir", hexs] =>
+    match parseProg hexs with
+    | some fns =>
+      match fns.getLast? with
+      | some fd => showMir fd
+      | none => "bad-program"
+    | none => "bad-program"
   | _ => "bad-op"
 
 end Driver.C08
